@@ -21,8 +21,9 @@ Scope Bd (exhaustive, every block a full product; fixed values are chosen outsid
           components fixed at context B (user "u", password "p w", host "::1", port 5432, database "d/b", query k=v)
           and at context D (host "db.example.org", port 5432, rest absent; password varies with username "u",
           database with username "usr")
-  pairs   username x password over V(m)^2;  database x query key, database x query value over V(m) x ({""}+S(m));
-          query key x query value over ({""}+S(m))^2; each in context A (host "h") and context C (nothing else)
+  pairs   (first component over length <= m, second over length <= 2)  username x password over V(m) x V(2), and in thorough
+          also password (length 3) x username V(2);  database x query key, database x query value over V(m) x ({""}+S(2));
+          query key x query value over ({""}+S(m)) x ({""}+S(2)); each in context A (host "h") and context C (nothing else)
   multi   query values that are tuples (x, y), x, y over {""}+S(1), and two keys at once
   hosts   drivername {pg, a+b, a_b1} x host {None, localhost, 1.2.3.4, db-1.example.org, ::1, fe80::1} x port {None, 0, 5432}
           x username {None, "u"} x database {None, "", "d"}
@@ -161,19 +162,23 @@ def _cases(block, ctx, firsts, n, m):
             yield dict(base, query={"k": x})
     elif block == "user*pass":
         for x in firsts:
-            for y in [None, ""] + S.strings(ALPHABET, m, 1):
+            for y in [None, ""] + S.strings(ALPHABET, 2, 1):
                 yield dict(base, username=x, password=y)
+    elif block == "pass*user":
+        for x in firsts:
+            for y in [None, ""] + S.strings(ALPHABET, 2, 1):
+                yield dict(base, username=y, password=x)
     elif block == "db*qkey":
         for x in firsts:
-            for y in S.strings(ALPHABET, m):
+            for y in S.strings(ALPHABET, 2):
                 yield dict(base, database=x, query={y: "v"})
     elif block == "db*qvalue":
         for x in firsts:
-            for y in S.strings(ALPHABET, m):
+            for y in S.strings(ALPHABET, 2):
                 yield dict(base, database=x, query={"k": y})
     elif block == "qkey*qvalue":
         for x in firsts:
-            for y in S.strings(ALPHABET, m):
+            for y in S.strings(ALPHABET, 2):
                 yield dict(base, query={x: y})
     elif block == "multi":
         one = S.strings(ALPHABET, 1)
@@ -201,10 +206,12 @@ def _tasks(n, m, nj):
     for ctx in "AC":
         plan += [("user*pass", ctx, Vm), ("db*qkey", ctx, Vm), ("db*qvalue", ctx, Vm), ("qkey*qvalue", ctx, Sm),
                  ("multi", ctx, S.strings(ALPHABET, 1))]
+        if m > 2:  # the long side on the password too; only passwords longer than 2 so that the blocks stay disjoint
+            plan += [("pass*user", ctx, S.strings(ALPHABET, m, 3))]
     plan += [("hosts", "C", ["pg", "a+b", "a_b1"])]
     tasks = []
     for block, ctx, firsts in plan:
-        per = len(firsts) * (1 if block in ("username", "password", "database", "qkey", "qvalue", "multi", "hosts") else len(Vm))
+        per = len(firsts) * (1 if block in ("username", "password", "database", "qkey", "qvalue", "multi", "hosts") else 184)
         parts = 1 if per < 4000 else min(nj * 2, len(firsts))
         for c in S.chunks(firsts, parts):
             tasks.append((block, ctx, c, n, m))
@@ -277,7 +284,7 @@ def run(run, tier, seed, args):
         samples=[s for r in res for s in r["samples"]][:8],
         exhaustive=True,
         scope="alphabet %r; singles over strings of length <= %d (+None, ''), pairs over strings of length <= %d (+None, ''), "
-              "contexts A/B/C/D, tuple query values, host/port/drivername table (module docstring)" % (ALPHABET, n, m),
+              "(second component <= 2), contexts A/B/C/D, tuple query values, host/port/drivername table (module docstring)" % (ALPHABET, n, m),
         sqlalchemy_tree=sqlalchemy.__file__,
     )
     if all(r["digests"] is not None for r in res):
